@@ -49,8 +49,10 @@ class C11(Prop):
 
     def shards(self, tier, seed):
         if tier == "quick":
-            return [["--seed", str(seed), "--n", "15"] for _ in range(NCPU)]
-        return [["--seed", str(seed), "--n", str(max(1, 2000 // NCPU))] for _ in range(NCPU)]
+            return [["--seed", str(seed), "--n", "10"] for _ in range(NCPU)]
+        procs = [1, 2, 4, 8, 16]
+        return [["--seed", str(seed), "--n", str(max(1, 2000 // NCPU)), "--mode", "p%d" % procs[k % len(procs)]]
+                for k in range(NCPU)]
 
     def search_shards(self, tier, seed, round_no):
         return [["--seed", str(seed + 7919 * (round_no + 1) + k), "--n", "30"] for k in range(NCPU)]
@@ -75,6 +77,16 @@ class C11(Prop):
                 status = e.get("a")
             if e["k"] == "call" and e.get("a") == "start" and status == "Recovering":
                 start_in_recovery = True
+        # how did the run that was last announced Running (before the harness' final phases) come up?
+        kind, user_start = "user-start", False
+        for e in pre:
+            if e["k"] == "st" and e.get("a") != "Running":
+                user_start = False
+            elif e["k"] == "call" and e.get("a") == "start":
+                user_start = True
+            elif e["k"] == "st" and e.get("a") == "Running":
+                kind = "user-start" if user_start else "recovery-restart"
+        self._restart_kind = kind
         return openfail, start_in_recovery
 
     def finding_key(self, case, code):
@@ -90,6 +102,8 @@ class C11(Prop):
                 if lost_entry and bit in (7, 8, 9) and not start_in_recovery:
                     continue  # consequences of the run that Stop / Wait could not reach
                 k = "%s/%s" % (eng, name)
+                if bit in (5, 3):
+                    k += "/after-" + self._restart_kind
                 if bit == 9:
                     what = {"call:stop": "stop-never-returns", "call:stopwait": "stop-never-returns",
                             "call:stopall": "stop-never-returns", "call:force": "stop-never-returns",
